@@ -42,7 +42,7 @@ def REQUIRED(tier):
 
 def _required(tier):
     return ["unpack_checks", "pack_checks", "roundtrip_checks", "caller_buffer_checks", "canary_audits", "rejections_checked",
-            "default_order_file_roundtrips", "spot_checks_large", "spelling:alias", "large_order_switches_in_process"]
+            "default_order_file_roundtrips", "spot_checks_large", "spelling:alias", "large_order_switches_in_process", "strided_output_buffer_calls"]
 
 
 def EXHAUSTIVE(tier):
@@ -235,6 +235,19 @@ def run_case(case, ctx):
                 ctx.violation(f"large-array:{nbits}bit:{order}", f"random {n}-byte array: unpack/pack differ from definition", dict(case, n=n))
             _audit(ctx, fr, case, "large")
             ctx.nontrivial_case(dict(case, n=n))
+            if n <= 4097:
+                # a caller-supplied output buffer that is a strided view: refusing it is fine, returning without having filled it is not
+                for fn, src, wantv, m in ((bits.unpack, raw, want, want.size), (bits.pack, want, raw, raw.size)):
+                    big = np.full(2 * m, 0xEE, dtype=np.uint8)
+                    view = big[::2]
+                    ctx.count("strided_output_buffer_calls")
+                    try:
+                        fn(src.copy(), nbits, view, bitorder=order)
+                    except Exception:  # noqa: BLE001
+                        ctx.count("strided_output_buffer_refused")
+                        continue
+                    if not np.array_equal(view, wantv) or np.any(big[1::2] != 0xEE):
+                        ctx.violation(f"strided-output-buffer-not-filled:{fn.__name__}:{nbits}bit", f"{fn.__name__} returned normally but the strided caller buffer of {m} elements does not hold the result", dict(case, n=n))
             # unspecified: input length not a multiple of 8/nbits
             if per > 1:
                 try:
